@@ -75,13 +75,18 @@ proof fn lemma_splitn_len(s: Seq<char>, n: nat, sep: char)
         lemma_splitn_len(s.subrange(first_sep(s, sep) + 1, s.len() as int), (n - 1) as nat, sep);
     }
 }
-/// the first piece of a non-empty split is the text before the first separator: EMPTY for an empty line and for a
-/// line that starts with the separator (what the "empty chrom ends the stream" mutant turns into end-of-input)
-proof fn lemma_splitn_first(s: Seq<char>, n: nat, sep: char)
-    requires n >= 1,
-    ensures
-        s.len() == 0 ==> splitn_spec(s, n, sep)[0].len() == 0,
-        s.len() > 0 && s[0] == sep && n >= 2 ==> splitn_spec(s, n, sep)[0].len() == 0,
+/// a text without the separator is ONE piece (itself) -- the empty text included
+proof fn lemma_splitn_no_sep(s: Seq<char>, n: nat, sep: char)
+    requires n >= 1, !has_sep(s, sep),
+    ensures splitn_spec(s, n, sep) == seq![s],
+{
+    reveal(splitn_spec);
+    lemma_first_sep(s, sep);
+}
+/// a text that starts with the separator has an EMPTY first piece
+proof fn lemma_splitn_leading_sep(s: Seq<char>, n: nat, sep: char)
+    requires n >= 2, s.len() > 0, s[0] == sep,
+    ensures splitn_spec(s, n, sep).len() >= 1, splitn_spec(s, n, sep)[0].len() == 0,
 {
     reveal(splitn_spec);
 }
@@ -337,6 +342,31 @@ proof fn lemma_line_is_its_columns(line: Seq<char>)
     lemma_splitn_len(trim_end_spec(line), 5, '\t');
 }
 
+/// WHAT HAPPENS TO LINES THAT ARE NOT RECORDS.  An empty line, a whitespace-only line, and any line without a tab
+/// (`#comment`, `track type=bedGraph ...`, `browser position ...` as usually written, or a space-separated BED
+/// line) is ONE column: it is refused as "Missing start" -- it is not skipped and it does not end the input.
+proof fn lemma_line_without_a_tab_is_refused(line: Seq<char>)
+    requires !has_sep(trim_end_spec(line), '\t'),
+    ensures
+        [[L: lemma/a_line_without_a_tab_is_refused_as_missing_start]]
+        bed_bad(line) == Some(k_missing_start()), bg_bad(line) == Some(k_missing_start()),
+        bed_line_item(line) == ItemView::<EntryView>::Refused(k_missing_start()),
+        bg_line_item(line) == ItemView::<Value>::Refused(k_missing_start()),
+{
+    lemma_splitn_no_sep(trim_end_spec(line), 4, '\t');
+    lemma_splitn_no_sep(trim_end_spec(line), 5, '\t');
+}
+/// a line that starts with a tab has an empty chromosome name; it is still a line (parsed, not the end of input)
+proof fn lemma_tab_leading_line_has_empty_chrom(line: Seq<char>)
+    requires trim_end_spec(line).len() > 0, trim_end_spec(line)[0] == '\t',
+    ensures
+        [[L: lemma/a_tab_leading_line_has_an_empty_first_column]]
+        bed_cols(line)[0].len() == 0, bg_cols(line)[0].len() == 0,
+{
+    lemma_splitn_leading_sep(trim_end_spec(line), 4, '\t');
+    lemma_splitn_leading_sep(trim_end_spec(line), 5, '\t');
+}
+
 // ================= (1) parse_bed / parse_bedgraph =================
 // The immediately-invoked closure `let res = (|| { BODY })();` is cut out as its own function (extract kind
 // `closure`, rule R10): `fn parse_bed_fields(split: &mut VSplit, s: &Str) -> Result<..> { BODY }` -- BODY verbatim,
@@ -499,7 +529,7 @@ impl StreamingLineReader {
 //@ret r
 //@sig
     ensures
-        [[L: reader_new/starts_at_the_first_line]]
+        [[L: starts_at_the_first_line]]
         r.lines() == bf.lines(),
 //@end
 //@extract method bigtools/src/utils/file/streaming_linereader.rs read "impl<B: BufRead> StreamingLineReader<B>"
@@ -610,7 +640,7 @@ impl BedFileStreamBed {
 //@ret r
 //@sig
     ensures
-        [[L: from_bed_file/stream_starts_at_the_first_line_of_the_file]]
+        [[L: stream_starts_at_the_first_line_of_the_file]]
         r.bed.lines() == file.lines(),
 //@end
 //@extract method bigtools/src/bed/bedparser.rs next "StreamingBedValues for BedFileStream"
@@ -643,7 +673,7 @@ impl BedFileStreamBedGraph {
 //@ret r
 //@sig
     ensures
-        [[L: from_bedgraph_file/stream_starts_at_the_first_line_of_the_file]]
+        [[L: stream_starts_at_the_first_line_of_the_file]]
         r.bed.lines() == file.lines(),
 //@end
 //@extract method bigtools/src/bed/bedparser.rs next "StreamingBedValues for BedFileStream"
